@@ -89,9 +89,19 @@ IndicatorEv(e) ==
 RecordEv(e) ==
     /\ Clause("record-keys-in-order", e.k = Len(recs) + 1)
     /\ recs' = Append(recs, [k |-> e.k, tag |-> e.tag, vec |-> e.vec, costs |-> e.costs])
+\* the recorded data changes without changing its size: an individual is moved to another generation (re-tagged)
+RetagEv(e) ==
+    /\ Clause("retag-known-record", e.k \in DOMAIN recs)
+    /\ recs' = [recs EXCEPT ![e.k].tag = e.tag]
+\* ... or an individual is replaced by another one at the same position of the record list (a re-run into the same problem object)
+ReplaceEv(e) ==
+    /\ Clause("replace-known-record", e.k \in DOMAIN recs)
+    /\ recs' = [recs EXCEPT ![e.k] = [k |-> e.k, tag |-> e.tag, vec |-> e.vec, costs |-> e.costs]]
 TInit == tid \in 1..Len(Traces) /\ l = 1 /\ recs = <<>>
 TNext == /\ l <= Len(Traces[tid])
          /\ CASE Ev.ev = "record"    -> RecordEv(Ev)
+              [] Ev.ev = "retag"     -> RetagEv(Ev)
+              [] Ev.ev = "replace"   -> ReplaceEv(Ev)
               [] Ev.ev = "query"     -> QueryEv(Ev)
               [] Ev.ev = "indicator" -> IndicatorEv(Ev)
               [] OTHER -> Clause("known-event", FALSE) /\ UNCHANGED recs
